@@ -7,6 +7,7 @@ import (
 	"os"
 	"path/filepath"
 	"strings"
+	"syscall"
 
 	"github.com/johannesboyne/gofakes3"
 	"github.com/spf13/afero"
@@ -119,6 +120,13 @@ func validObjectKey(key string) bool {
 		}
 	}
 	return true
+}
+
+// notExist reports whether err means that the path names nothing: the file is
+// missing, or (on a real file system, ENOTDIR) one of its parent directories
+// is a file - the object of a key that is a path prefix of the one asked for.
+func notExist(err error) bool {
+	return os.IsNotExist(err) || errors.Is(err, syscall.ENOTDIR)
 }
 
 // errUnsupportedKey is returned for keys the filesystem layout cannot hold.
